@@ -17,6 +17,7 @@ ALL = ['P_T', 'P_TA', 'P_N', 'F_T', 'F_TA', 'F_N', 'V_T', 'V_TA', 'V_N', 'M_T', 
 VARYING = ['V_T', 'V_TA', 'V_N', 'M_T', 'M_NA', 'VV_T']
 ALIGNED = ['P_TA', 'F_TA', 'V_TA', 'M_NA', 'VV_T']
 NONTRIV = ['P_N', 'F_N', 'V_N', 'M_NA']
+NONTRIV_A = ['V_NA', 'PV_NA']   # non-trivial AlignAs objects whose size is not a multiple of the alignment (relocation overlaps)
 S5Q = ['P_T', 'P_TA', 'P_N', 'F_T', 'F_TA', 'F_N', 'V_T', 'V_TA', 'V_N', 'M_T', 'B_T', 'B_TA', 'VB_T', 'P_TB', 'B_B', 'BB_T', 'SB_T']
 
 K_SEQ = {'SIZE', 'EMPTY', 'CAP', 'SHAPE', 'VALUES', 'RETURNED_ITERATOR', 'STATE', 'OBS_MISSING', 'OBS_OF_ABSENT'}
@@ -121,8 +122,9 @@ class Units(list):
 # property -> units per tier, judgement kinds routed to it, crash routing, extra filter
 PROPS = {
     'C01': {'level': 'model_checking',
-            'units': {'quick': u('S1', ALL) + u('SR', ['V_T', 'V_N', 'F_N', 'M_NA']),
-                      'thorough': u('S1', ALL, ('AE', 'NP')) + u('S1', ALL, ('AE',), ('ndebug',)) + u('SR', ALL, ('AE', 'PR'))},
+            'units': {'quick': u('S1', ALL) + u('SR', ['V_T', 'V_N', 'F_N', 'M_NA']) + u('S1sim', ['V_T', 'M_NA']),
+                      'thorough': u('S1', ALL, ('AE', 'NP')) + u('S1', ALL, ('AE',), ('ndebug',)) + u('SR', ALL, ('AE', 'PR'))
+                                  + u('S1sim', ALL, ('AE',))},
             'kinds': K_SEQ | {'PATHS_DISAGREE'}, 'crash': crash_any, 'filter': None,
             'technique': 'TLA+ model (Cntgs.tla) explored by TLC; transition-cover histories replayed on the real '
                          'templates; every step of the recorded trace judged by Trace.tla (sequence semantics)'},
@@ -155,16 +157,17 @@ PROPS = {
             'technique': 'observed offsets compared with the greedy layout of Layout.tla; footprint judged against '
                          'the observed footprint of a fresh vector'},
     'C06': {'level': 'model_checking',
-            'units': {'quick': u('S1', NONTRIV) + u('S2', NONTRIV, ('NP', 'PR')),
-                      'thorough': u('S1', NONTRIV, ('AE', 'NP')) + u('S2', NONTRIV, ('NP', 'AE', 'PR'))
-                                  + u('SR', NONTRIV, ('AE', 'PR'))},
+            'units': {'quick': u('S1', NONTRIV + NONTRIV_A) + u('S2', NONTRIV, ('NP', 'PR')),
+                      'thorough': u('S1', NONTRIV + NONTRIV_A, ('AE', 'NP')) + u('S2', NONTRIV + NONTRIV_A, ('NP', 'AE', 'PR'))
+                                  + u('SR', NONTRIV, ('AE', 'PR')) + u('S1sim', NONTRIV, ('AE',)) + u('S2sim', NONTRIV, ('NP',))},
             'kinds': K_LIFE | {'VALUES'}, 'crash': crash_any, 'filter': None,
             'technique': 'constructor/assignment/destructor events of the instrumented value type inside every '
                          'operation folded by the lifetime sub-machine of Trace.tla; live objects compared with the '
                          'slots of the held values after every step'},
     'C07': {'level': 'model_checking',
             'units': {'quick': u('S1', ALL) + u('S2', ALL, ('NP',)) + u('S2', ['F_N', 'V_N'], ('AE', 'PR')),
-                      'thorough': u('S1', ALL, ('AE', 'NP')) + u('S2', ALL, ('NP', 'AE', 'PR')) + u('SR', ALL, ('AE', 'PR'))},
+                      'thorough': u('S1', ALL, ('AE', 'NP')) + u('S2', ALL, ('NP', 'AE', 'PR')) + u('SR', ALL, ('AE', 'PR'))
+                                  + u('S2sim', ALL, ('NP', 'PR'))},
             'kinds': K_LEDGER, 'crash': never, 'filter': None,
             'technique': 'allocate/deallocate events of the ledger allocator folded by the ledger sub-machine of '
                          'Trace.tla (size, equal allocator, exactly once); empty ledger required at the end of every '
@@ -178,8 +181,8 @@ PROPS = {
                          'AllocatorPropagation) explored by TLC per trait combination; get_allocator() and the allocator '
                          'instance of every block (at use and at free) judged by Trace.tla'},
     'C09': {'level': 'model_checking',
-            'units': {'quick': u('S2', ALL, ('NP',)) + u('S2', ['F_N', 'V_N'], ('AE', 'PR')),
-                      'thorough': u('S2', ALL, ('NP', 'AE', 'PR')) + u('SR', ALL, ('AE', 'PR'))},
+            'units': {'quick': u('S2', ALL, ('NP',)) + u('S2', ['F_N', 'V_N'], ('AE', 'PR')) + u('S2sim', ['V_N', 'F_T'], ('NP',)),
+                      'thorough': u('S2', ALL, ('NP', 'AE', 'PR')) + u('SR', ALL, ('AE', 'PR')) + u('S2sim', ALL, ('NP', 'PR'))},
             'kinds': K_VALUE, 'crash': crash_any, 'filter': None,
             'technique': 'two-vector TLA+ model (copy/move construction and assignment, swap, self forms, moved-from '
                          'targets, all source/target shapes up to capacity 2) explored by TLC; the projection of BOTH '
@@ -210,7 +213,7 @@ PROPS = {
                          'both elements (values, own block, allocator, layout, live objects) judged by Trace.tla after '
                          'every step'},
     'C13': {'level': 'model_checking',
-            'units': {'quick': u('S5', S5Q), 'thorough': u('S5', ALL + ['B_T', 'B_TA', 'VB_T'], ('AE', 'NP'))},
+            'units': {'quick': u('S5', S5Q) + u('S5e', ['F_T', 'B_T', 'M_T', 'V_N']), 'thorough': u('S5', ALL + ['B_T', 'B_TA', 'VB_T'], ('AE', 'NP')) + u('S5e', ALL + ['B_T', 'B_TA', 'VB_T', 'BB_T', 'SB_T'], ('AE', 'NP'))},
             'kinds': {'EQUALITY', 'VECTOR_EQUALITY'}, 'crash': crash_any, 'filter': None,
             'technique': 'TLA+ model of two vectors over a three-valued domain (every pair of contents: equal, one field '
                          'different, strict prefix, empty, different spare capacity) explored by TLC; complete truth tables '
@@ -253,10 +256,12 @@ PROPS = {
                          'operand, ledger, object lifetimes, a follow-up operation on the operand, destruction of '
                          'everything) is judged by Trace.tla'},
     'C18': {'level': 'model_checking',
-            'units': {'quick': u('S1', ALL), 'thorough': u('S1', ALL, ('AE', 'NP'))},
+            'units': {'quick': u('S1', ALL) + u('S5e', ALL + ['B_T', 'SB_T']), 'thorough': u('S1', ALL, ('AE', 'NP')) + u('S5e', ALL + ['B_T', 'B_TA', 'VB_T', 'BB_T', 'SB_T'], ('AE', 'NP', 'PR'))},
             'kinds': ANY, 'crash': crash_any, 'filter': on_empty,
             'technique': 'all model transitions from/to states with no element (fresh, capacity 0, '
-                         'default-constructed, emptied) replayed under rotating junk patterns and judged by Trace.tla'},
+                         'default-constructed, emptied) replayed under rotating junk patterns and judged by Trace.tla; '
+                         'two-vector model of comparison / copy / move / swap between vectors that hold nothing in '
+                         'different ways (S5e: default-constructed, capacity 0, emptied, two FixedSize variants)'},
 }
 
 
